@@ -309,10 +309,43 @@ def run(prog, rep):
     rep.ob("C16.5", gi, "int", oki, "the int getter converts the text as a decimal number (%s)" % conv[0]["callee"] if oki else
            "the int getter converts with %s: the documented decimal (atoi-style) conversion is changed (e.g. 010 or 0x10 are read in another radix)" %
            (show(conv[0]) if conv else "nothing"), conv[0] if conv else gi.loc[0])
+    def narrowed(fn, call):
+        """a conversion that loses part of the converted number on its way to the return: (cast node, from, to)"""
+        holders = set()
+        for (b, i, n) in fn.nodes(elsewhere=True):
+            if n["k"] == "asg" and strip_casts(n["l"]) is not None and strip_casts(n["l"])["k"] == "ref" and strip_casts(n["r"]) is call:
+                holders |= fn.copies_of(strip_casts(n["l"])["name"])
+            elif n["k"] == "decl" and n.get("init") is not None and strip_casts(n["init"]) is call:
+                holders |= fn.copies_of(n["name"])
+        for (b, i, n) in fn.nodes(elsewhere=True):
+            if n["k"] != "cast":
+                continue
+            inner = n["e"]
+            si = strip_casts(inner)
+            if not (si is call or (si is not None and si["k"] == "ref" and si["name"] in holders)):
+                continue
+            while inner is not None and inner["k"] == "cast" and inner.get("ck") in ("LValueToRValue", "NoOp"):
+                inner = inner["e"]
+            t_out, t_in = u.types[n["t"]], u.type_of(inner)
+            if not t_out or not t_in or not t_out.get("w") or not t_in.get("w"):
+                continue
+            if t_out["w"] < t_in["w"] or (t_in.get("k") == "float" and t_out.get("k") == "int"):
+                return (n, t_in.get("s"), t_out.get("s"))
+        return None
+    if oki:
+        nr = narrowed(gi, conv[0])
+        if nr is not None:
+            rep.ob("C16.5", gi, "int:width", False, "line %d: the converted number passes through %s on its way out (from %s)" % (line(nr[0]), nr[2], nr[1]), nr[0])
     gd = u.fn("p_ini_file_parameter_double", raw=True).inlined(skip=("pp_ini_file_find_parameter",))
     conv = [c for (b, i, c) in gd.calls() if c.get("callee") in ("p_strtod", "strtod", "atof", "sscanf")]
     okd = len(conv) == 1 and conv[0]["callee"] == "p_strtod" and root_var(conv[0]["args"][0]) == (var_assigned_from(gd, "pp_ini_file_find_parameter") or "val")
-    rep.ob("C16.5", gd, "double", okd, "the double getter uses the locale-independent p_strtod" if okd else "the double getter does not use p_strtod (locale-dependent or different syntax)", gd.loc[0])
+    msgd = "the double getter does not use p_strtod (locale-dependent or different syntax)"
+    if okd:
+        nr = narrowed(gd, conv[0])
+        if nr is not None:
+            okd, msgd = False, ("line %d: the result of p_strtod passes through %s before it is returned as %s: every value is rounded to single precision "
+                                "(0.1 comes back as 0.10000000149, 1e60 as infinity)" % (line(nr[0]), nr[2], nr[1]))
+    rep.ob("C16.5", gd, "double", okd, "the double getter uses the locale-independent p_strtod and returns its result at full width" if okd else msgd, gd.loc[0])
     gb = u.fn("p_ini_file_parameter_boolean", raw=True).inlined(skip=("pp_ini_file_find_parameter",))
     lits = sorted(strip_casts(c["args"][1]).get("v") for (b, i, c) in gb.calls() if c.get("callee") == "strcmp" and strip_casts(c["args"][1])["k"] == "str")
     okb = lits == ["FALSE", "TRUE", "false", "true"] and any(c.get("callee") == "atoi" for (b, i, c) in gb.calls())
@@ -575,6 +608,8 @@ SELFTEST = [
          old="\tret = atoi (val);\n\tp_free (val);\n", new="\tret = atoi (val);\n"),
     dict(id="line-not-freed", file="src/pinifile.c", expect="C16.4",
          old="\t\tp_free (dst_line);\n\t\tmemset (src_line, 0, sizeof (src_line));", new="\t\tmemset (src_line, 0, sizeof (src_line));"),
+    dict(id="double-getter-through-float", file="src/pinifile.c", expect="C16.5",
+         old="\tpdouble\tret;", new="\tpfloat\tret;"),
     dict(id="int-getter-base0", file="src/pinifile.c", expect="C16.5",
          old="\tret = atoi (val);", new="\tret = (pint) strtol (val, NULL, 0);"),
     dict(id="header-sscanf-only", file="src/pinifile.c", expect="C16.6",
